@@ -11,6 +11,8 @@ import (
 	"fmt"
 	"os"
 	"path/filepath"
+	"runtime"
+	"sync"
 	"testing"
 
 	"github.com/rpcpool/yellowstone-faithful/indexmeta"
@@ -182,6 +184,42 @@ func vfC05eval(c *vfC05Case) error {
 		}
 		probes = append(probes, vfC05sig(c.Seed^0x5555aaaa5555aaaa, p, 1_000_000+i))
 	}
+	// one reader shared by concurrent lookups, as in the server (one reader per epoch, every request in its own
+	// goroutine, epochs searched in parallel): over the mapped file, and over a ReaderAt that yields the processor
+	// after delivering its bytes (storage that blocks)
+	if len(sigs) > 0 {
+		r4, err := NewReader(vfYieldReaderAt{vfSliceReaderAt{raw}})
+		if err != nil {
+			return fmt.Errorf("NewReader(yielding memory): %v", err)
+		}
+		for _, x := range []rd{{"mmap, concurrent", r1}, {"yielding, concurrent", r4}} {
+			var wg sync.WaitGroup
+			bad := make(chan error, 8)
+			for g := 0; g < 8; g++ {
+				wg.Add(1)
+				go func(g int) {
+					defer wg.Done()
+					for k := 0; k < 400; k++ {
+						i := (g*7919 + k*31) % len(sigs)
+						ok, err := x.r.Has(sigs[i])
+						if err != nil || !ok {
+							select {
+							case bad <- fmt.Errorf("[%s] Has(added signature #%d) = %v, %v while 8 goroutines share the reader", x.name, i, ok, err):
+							default:
+							}
+							return
+						}
+					}
+				}(g)
+			}
+			wg.Wait()
+			select {
+			case err := <-bad:
+				return err
+			default:
+			}
+		}
+	}
 	for _, x := range readers {
 		for i, s := range sigs {
 			ok, err := x.r.Has(s)
@@ -331,4 +369,13 @@ func TestVfReplayC05(t *testing.T) {
 	if err := vfC05eval(&c); err != nil {
 		t.Fatalf("C05 violated: %v", err)
 	}
+}
+
+// vfYieldReaderAt hands the processor to other goroutines after every read (a stand-in for storage that blocks).
+type vfYieldReaderAt struct{ r vfSliceReaderAt }
+
+func (y vfYieldReaderAt) ReadAt(p []byte, off int64) (int, error) {
+	n, err := y.r.ReadAt(p, off)
+	runtime.Gosched()
+	return n, err
 }
